@@ -100,6 +100,8 @@ class Resolver:
         prev = m.const_hook
 
         def hook(mm, text):
+            if re.fullmatch(r'\d+(_?usize)?', text.strip()):
+                return int(re.match(r'\d+', text.strip()).group(0))        # a const generic argument substituted for its parameter
             if text in ('N',) and self.n_value is not None:
                 return self.n_value(mm) if callable(self.n_value) else self.n_value
             if text == 'ARRAY_TUPLE_LIMIT':
